@@ -277,6 +277,28 @@ def kani_playback(ws, crate, harness, features=None, timeout=600, solver=None):
             "timed_out": to or to2}
 
 
+def native_search(ws, crate, test, features=None, targets=(), replay_input=None, seed=0, timeout=900):
+    """Run the native failing-input search (or the replay of one stored input) woven under
+    cfg(verif_search).  Returns dict(found={obligation: input_line}, output, evaluations)."""
+    cmd = ["cargo", "test", "--offline", "-p", crate, "--lib"]
+    if features:
+        cmd += ["--features", features]
+    cmd += [test, "--", "--nocapture", "--test-threads", "1"]
+    env = {"RUSTFLAGS": "--cfg verif_search", "VERIF_SEARCH_TARGETS": ",".join(targets), "VERIF_SEED": str(seed)}
+    if replay_input is not None:
+        env["VERIF_REPLAY"] = replay_input
+    with TargetLock("native-" + crate) as target:
+        env["CARGO_TARGET_DIR"] = target
+        rc, out, to, secs = run(cmd, cwd=ws.ws, timeout=timeout, env=env)
+    found = {}
+    for m in re.finditer(r"VERIF-FOUND obligation=(\S+) input: (.*)", out):
+        found.setdefault(m.group(1), m.group(2).strip())
+    m = re.search(r"VERIF-SEARCH evaluations=(\d+)", out)
+    ran = ("VERIF-SEARCH" in out) or ("VERIF-REPLAY" in out)
+    return {"found": found, "output": out[-4000:], "evaluations": int(m.group(1)) if m else None,
+            "ran": ran, "timed_out": to, "wall_s": round(secs, 2), "cmd": " ".join(cmd)}
+
+
 def classify_failed_check(desc):
     for pat in UNDECIDED_PATTERNS:
         if re.search(pat, desc, re.I):
